@@ -84,6 +84,26 @@ def runDur : P Verdict := do
     | _, _ => false
   pure { corr, oracle := orc, nontriv := !trivial, cls := s!"{cls}:n{if n < 5 then "<5" else if n < 50 then "<50" else ">=50"}" }
 
+/-- `durE n (mean vari)×n s fp rate | ok samples | err e | panic site` — engine level: `Engine::synthesize` under output-setting
+    overrides returns `fp × max(round(F1/s), n)` samples (the speed reaches the estimator unchanged). -/
+def runDurE : P Verdict := do
+  let n ← nat
+  let ps ← many n parseMV
+  let s ← flt; let fp ← nat; let rate ← nat
+  let t ← next
+  let impl : Option Nat ← (if t == "ok" then do let k ← nat; pure (some k) else do let _ ← next; pure none)
+  let m := ofModel (durationCreate ps s (s == 1.0))
+  let f1 := (ps.map (fun p => rmax1 p.mean)).sum
+  let want : Nat := fp * (if s == 1.0 then f1 else max (rmax1 (f1.toFloat / s)) n)
+  let corr := match m, impl with
+    | .ok d, some k => check (fp * d.sum == k) s!"synthesize returned {k} samples, model {fp}×{d.sum} (speed {s}, frame period {fp}, rate {rate})"
+    | _, none => some s!"synthesize failed: {t}"
+    | .panic site, _ => some s!"model panics at {site}"
+  let orc := match impl with
+    | some k => check (k == want) s!"{k} samples at speed {s}, frame period {fp}, rate {rate}: expected {fp} × max(round({f1}/{s}), {n}) = {want}"
+    | none => some s!"synthesize failed: {t}"
+  pure { corr, oracle := orc, nontriv := s != 1.0 && want != fp * f1, cls := s!"engine:fp{if fp == 240 then "=voice" else "≠voice"}:rate{if rate == 48000 then "=voice" else "≠voice"}" }
+
 def parseTime : P (Float × Float) := do
   let a ← flt; let b ← flt; pure (a, b)
 
